@@ -72,6 +72,15 @@ class UnreachableError(Error):
     span_label: ClassVar[str] = "This code is not reachable"
 
 
+def _add_unitary_flags(cfg: CFG, flags: UnitaryFlags) -> None:
+    """Adds unitary flags to a CFG and to the bodies of all `with` blocks inside it."""
+    cfg.unitary_flags |= flags
+    for bb in cfg.bbs:
+        for stmt in bb.statements:
+            if isinstance(stmt, ModifiedBlock):
+                _add_unitary_flags(stmt.cfg, flags)
+
+
 class CFGBuilder(AstVisitor[BB | None]):
     """Constructs a CFG from ast nodes."""
 
@@ -327,12 +336,10 @@ class CFGBuilder(AstVisitor[BB | None]):
             modifier = self._handle_withitem(item)
             new_node.push_modifier(modifier)
 
-        # FIXME: Currently, the unitary flags is not set correctly if there are nested
-        # `with` blocks. This is because the outer block's unitary flags are not
-        # propagated to the outer block. The following line should calculate the sum
-        # of the unitary flags of the outer block and modifiers applied in this
-        # `with` block.
-        cfg.unitary_flags = new_node.flags()
+        # The body has to respect the unitary flags of the enclosing context in addition
+        # to the ones of the modifiers applied in this `with` block. The same holds for
+        # all `with` blocks nested inside the body, whose CFGs have already been built.
+        _add_unitary_flags(cfg, self.cfg.unitary_flags | new_node.flags())
 
         set_location_from(new_node, node)
         bb.statements.append(new_node)
